@@ -93,15 +93,20 @@ def rule_pair(ctx) -> RuleResult:
                          f"after removing {geom} the {want}-associated data keep their old length (calls seen: {wrong or 'none'}): values no longer line up with the geometry")
     rcv = p.func("ObjectBase.remove_children_values")
     ind, assoc = rcv.params[1], rcv.params[2]
-    tests = [unparse(i.test) for i in ast.walk(rcv.node) if isinstance(i, ast.If)]
+    # roles: child = the loop variable over self.children; values = the local the child's stored array is read into
+    from ..roles import bound_from, canon
+    rr = {lp.target.id: "child" for lp in ast.walk(rcv.node) if isinstance(lp, ast.For) and isinstance(lp.target, ast.Name) and unparse(lp.iter).endswith(".children")}
+    rr.update({nm: "values" for nm in bound_from(rcv.node, lambda e: "_values" in unparse(e) or "fetch_values" in unparse(e))})
+    unparse_r = lambda n: canon(n, rr)  # noqa: E731
+    tests = [unparse_r(i.test) for i in ast.walk(rcv.node) if isinstance(i, ast.If)]
     ok = any(f"child.association.name == {assoc}" in t for t in tests)
     res.inst(f"remove_children_values filters children on `child.association.name == {assoc}`", ok=ok)
     if not ok:
         res.find("ObjectBase", "remove_children_values", "association filter changed", rcv.where, "data of the other association are trimmed too (or none are)")
-    for i in [x for x in ast.walk(rcv.node) if isinstance(x, ast.If) and "association.name" in unparse(x.test)]:
+    for i in [x for x in ast.walk(rcv.node) if isinstance(x, ast.If) and "association.name" in unparse_r(x.test)]:
         conj = i.test.values if isinstance(i.test, ast.BoolOp) and isinstance(i.test.op, ast.And) else [i.test]
         for c in conj:
-            if isinstance(c, ast.Call) and unparse(c.func) == "isinstance" and unparse(c.args[0]) == "child":
+            if isinstance(c, ast.Call) and unparse(c.func) == "isinstance" and unparse_r(c.args[0]) == "child":
                 names = [unparse(x) for x in (c.args[1].elts if isinstance(c.args[1], ast.Tuple) else [c.args[1]])]
                 narrow = [nm for nm in names if nm != "Data"]
                 ok = not narrow
@@ -109,8 +114,8 @@ def rule_pair(ctx) -> RuleResult:
                 if not ok:
                     res.find("ObjectBase", "remove_children_values", f"children filtered by class {narrow}", f"{rcv.module.relpath}:{c.lineno}",
                              f"only {narrow} children are trimmed: data of the other kinds (text, ...) keep their old length after a geometry removal")
-    asg = [a for a in ast.walk(rcv.node) if isinstance(a, ast.Assign) and unparse(a.targets[0]) == "child.values"]
-    ok = bool(asg) and all(unparse(a.value).replace(" ", "") == f"np.delete(values,{ind},axis=0)" for a in asg)
+    asg = [a for a in ast.walk(rcv.node) if isinstance(a, ast.Assign) and unparse_r(a.targets[0]) == "child.values"]
+    ok = bool(asg) and all(unparse_r(a.value).replace(" ", "") == f"np.delete(values,{ind},axis=0)" for a in asg)
     res.inst(f"remove_children_values assigns child.values = np.delete(values, {ind}, axis=0)", ok=ok)
     if not ok:
         res.find("ObjectBase", "remove_children_values", "values are not trimmed with the given indices through the setter", rcv.where,
